@@ -19,6 +19,7 @@ import (
 	"fmt"
 	"os"
 	"path/filepath"
+	"math/big"
 	"math/bits"
 	"reflect"
 	"runtime"
@@ -37,6 +38,7 @@ import (
 func init() {
 	execs["c16.msg"] = execC16Msg
 	execs["c16.tx"] = execC16Tx
+	execs["c16.blk"] = execC16Blk
 	execs["c16.lvl"] = execC16Lvl
 	execs["c16.lib"] = execC16Lib
 	execs["c16.conc"] = execC16Conc
@@ -164,6 +166,295 @@ func c16DecodeMsg(dag []Node, root int, withHasher bool) sx.V {
 		return c16Fail("decoded-unhashable-cell")
 	}
 	return c16MsgView(&m, srcHash)
+}
+
+// ------------------------------------------------- block accessors (c16.blk)
+
+// c16LabelAt parses a hashmap label (hml_short / hml_long / hml_same) of a key
+// of at most m bits at bit position p; returns its length and the position
+// after it.  Written from the TL-B scheme, independent of tongo.
+func c16LabelAt(bitsS string, p, m int) (ln, np int, ok bool) {
+	if p >= len(bitsS) {
+		return 0, 0, false
+	}
+	if bitsS[p] == '0' { // hml_short: unary length
+		p++
+		for p < len(bitsS) && bitsS[p] == '1' {
+			ln++
+			p++
+		}
+		return ln, p + 1 + ln, p < len(bitsS)
+	}
+	w := bits.Len(uint(m))
+	num := func(at int) int {
+		v := 0
+		for i := 0; i < w && at+i < len(bitsS); i++ {
+			v = v*2 + int(bitsS[at+i]-'0')
+		}
+		return v
+	}
+	if p+1 < len(bitsS) && bitsS[p+1] == '0' { // hml_long
+		ln = num(p + 2)
+		return ln, p + 2 + w + ln, true
+	}
+	ln = num(p + 3) // hml_same
+	return ln, p + 3 + w, true
+}
+
+// c16SkipCC skips a CurrencyCollection (Grams, then the extra-currency HashmapE)
+func c16SkipCC(bitsS string, p, rp int) (int, int) {
+	l := 0
+	for i := 0; i < 4 && p+i < len(bitsS); i++ {
+		l = l*2 + int(bitsS[p+i]-'0')
+	}
+	p += 4 + 8*l
+	if p < len(bitsS) && bitsS[p] == '1' {
+		rp++
+	}
+	return p + 1, rp
+}
+
+// c16AugLeaves walks a HashmapAug with m remaining key bits whose root edge
+// starts at (node, bit p, ref rp) and calls leaf(node, p, rp) positioned at the
+// leaf's extra.
+func c16AugLeaves(dag []Node, node, p, rp, m int, leaf func(node, p, rp int)) {
+	if dag[node].Special {
+		return
+	}
+	ln, np, ok := c16LabelAt(dag[node].Bits, p, m)
+	if !ok {
+		return
+	}
+	if m-ln == 0 {
+		leaf(node, np, rp)
+		return
+	}
+	if rp+1 < len(dag[node].Refs) {
+		c16AugLeaves(dag, dag[node].Refs[rp], 0, 0, m-ln-1, leaf)
+		c16AugLeaves(dag, dag[node].Refs[rp+1], 0, 0, m-ln-1, leaf)
+	}
+}
+
+// c16BlockTxCells: the transaction cells of a block, found by walking
+// block -> extra (4th ref) -> account_blocks (3rd ref) -> HashmapAugE 256 ->
+// acc_trans#5 -> HashmapAug 64 ^Transaction, in dictionary order.
+func c16BlockTxCells(dag []Node, root int) []int {
+	var out []int
+	if len(dag[root].Refs) < 4 {
+		return nil
+	}
+	extra := dag[root].Refs[3]
+	if len(dag[extra].Refs) < 3 {
+		return nil
+	}
+	ab := dag[extra].Refs[2]
+	if len(dag[ab].Bits) == 0 || dag[ab].Bits[0] != '1' || len(dag[ab].Refs) == 0 {
+		return nil
+	}
+	c16AugLeaves(dag, dag[ab].Refs[0], 0, 0, 256, func(node, p, rp int) {
+		p, rp = c16SkipCC(dag[node].Bits, p, rp) // extra: CurrencyCollection
+		p += 4 + 256                                // acc_trans#5 account_addr
+		c16AugLeaves(dag, node, p, rp, 64, func(n2, p2, rp2 int) {
+			_, rp2 = c16SkipCC(dag[n2].Bits, p2, rp2)
+			if rp2 < len(dag[n2].Refs) {
+				out = append(out, dag[n2].Refs[rp2])
+			}
+		})
+	})
+	return out
+}
+
+type c16LtHash struct {
+	lt uint64
+	h  tlb.Bits256
+}
+
+func c16SortLH(l []c16LtHash) []c16LtHash {
+	o := append([]c16LtHash{}, l...)
+	sort.Slice(o, func(i, j int) bool {
+		if o[i].lt != o[j].lt {
+			return o[i].lt < o[j].lt
+		}
+		return bytes.Compare(o[i].h[:], o[j].h[:]) < 0
+	})
+	return o
+}
+
+func c16SameLH(a, b []c16LtHash) bool {
+	a, b = c16SortLH(a), c16SortLH(b)
+	if len(a) != len(b) {
+		return false
+	}
+	for i := range a {
+		if a[i] != b[i] {
+			return false
+		}
+	}
+	return true
+}
+
+// c16BlockAccessors decodes the block and collects what every exported way of
+// reaching its transactions and their messages hands out.  "" = all agree with
+// [want] (the (lt, hash) of the transaction cells) and among themselves.
+func c16BlockAccessors(root *boc.Cell, want []c16LtHash, wantMsgs map[tlb.Bits256]int, withHasher bool) string {
+	var block tlb.Block
+	dec := new(tlb.Decoder)
+	if withHasher {
+		dec = tlb.NewDecoder()
+	}
+	if err := dec.Unmarshal(root, &block); err != nil {
+		return "block-does-not-decode"
+	}
+	msgsOf := func(tx *tlb.Transaction, into map[tlb.Bits256]int) {
+		if tx.Msgs.InMsg.Exists {
+			m := tx.Msgs.InMsg.Value.Value
+			into[m.Hash(false)]++
+		}
+		for _, om := range tx.Msgs.OutMsgs.Values() {
+			m := om.Value
+			into[m.Hash(false)]++
+		}
+	}
+	sameMsgs := func(a map[tlb.Bits256]int) bool {
+		if len(a) != len(wantMsgs) {
+			return false
+		}
+		for k, v := range a {
+			if wantMsgs[k] != v {
+				return false
+			}
+		}
+		return true
+	}
+	// 1. Block.AllTransactions
+	var all []c16LtHash
+	allMsgs := map[tlb.Bits256]int{}
+	for n, tx := range block.AllTransactions() {
+		all = append(all, c16LtHash{tx.Lt, tx.Hash()})
+		msgsOf(tx, allMsgs)
+		if n >= 40 {
+			continue // SourceBoc of the first 40 only (cost)
+		}
+		b, err := tx.SourceBoc()
+		if err != nil {
+			return "AllTransactions-source-boc"
+		}
+		if roots, e := boc.DeserializeBoc(b); e != nil || len(roots) != 1 {
+			return "AllTransactions-source-boc"
+		} else if h, _ := roots[0].Hash256(); tlb.Bits256(h) != tx.Hash() {
+			return "AllTransactions-source-boc"
+		}
+	}
+	if !c16SameLH(all, want) {
+		return "AllTransactions-multiset"
+	}
+	if !sameMsgs(allMsgs) {
+		return "AllTransactions-messages-multiset"
+	}
+	if block.TransactionsQuantity() != len(want) {
+		return "TransactionsQuantity"
+	}
+	// 2. the walk over AccountBlocks
+	var walk []c16LtHash
+	walkMsgs := map[tlb.Bits256]int{}
+	for _, acc := range block.Extra.AccountBlocks.Values() {
+		vals := acc.Transactions.Values()
+		for i := range vals {
+			tx := &vals[i].Value
+			walk = append(walk, c16LtHash{tx.Lt, tx.Hash()})
+			msgsOf(tx, walkMsgs)
+			if tx.AccountAddr != acc.AccountAddr {
+				return "AccountBlocks-transaction-of-another-account"
+			}
+		}
+	}
+	if !c16SameLH(walk, want) {
+		return "AccountBlocks-multiset"
+	}
+	if !sameMsgs(walkMsgs) {
+		return "AccountBlocks-messages-multiset"
+	}
+	// 3. InMsgDescr / OutMsgDescr: every transaction / message they carry is one of the block
+	inSet := map[c16LtHash]bool{}
+	for _, w := range want {
+		inSet[w] = true
+	}
+	var found []c16Real
+	missing := 0
+	byHash := map[string]*boc.Cell{}
+	if in, err := block.Extra.InMsgDescr(); err == nil {
+		for _, v := range in.Values() {
+			c16Collect(reflect.ValueOf(v), "in", &found, byHash, &missing)
+		}
+	} else {
+		return "InMsgDescr-does-not-decode"
+	}
+	if out, err := block.Extra.OutMsgDescr(); err == nil {
+		for _, v := range out.Values() {
+			c16Collect(reflect.ValueOf(v), "out", &found, byHash, &missing)
+		}
+	} else {
+		return "OutMsgDescr-does-not-decode"
+	}
+	for _, rec := range found {
+		if rec.kind == "tx" && !inSet[c16LtHash{rec.lt, rec.hash}] {
+			return "MsgDescr-transaction-not-in-block"
+		}
+	}
+	return ""
+}
+
+// c16.blk (dag root (tx-index...)): per transaction cell (lt hash (in_msg-hash)?)
+// from a standalone decode of that cell; oracle: all accessors of the decoded
+// block (with and without the hasher) hand out exactly that multiset.
+func execC16Blk(in sx.V) sx.V {
+	dag := dagFromSx(in.List[0])
+	root := in.List[1].I()
+	ref, err := buildGo(dag)
+	if err != nil {
+		return sx.A("build-err")
+	}
+	var out []sx.V
+	var want []c16LtHash
+	wantMsgs := map[tlb.Bits256]int{}
+	for _, iv := range in.List[2].List {
+		i := iv.I()
+		var tx tlb.Transaction
+		ref[i].ResetCounters()
+		if err := tlb.Unmarshal(ref[i], &tx); err != nil {
+			out = append(out, sx.A("err"))
+			continue
+		}
+		h := tx.Hash()
+		// lt straight from the bits: transaction$0111 account_addr:bits256 lt:uint64
+		var lt uint64
+		for _, ch := range dag[i].Bits[260:324] {
+			lt = lt*2 + uint64(ch-'0')
+		}
+		if ch, _ := ref[i].Hash256(); tlb.Bits256(ch) != h || lt != tx.Lt {
+			return c16Fail("transaction-cell-reports-other-lt-or-hash")
+		}
+		want = append(want, c16LtHash{lt, h})
+		inmsg := sx.L()
+		if tx.Msgs.InMsg.Exists {
+			m := tx.Msgs.InMsg.Value.Value
+			mh := m.Hash(false)
+			wantMsgs[mh]++
+			inmsg = sx.L(sx.Bytes(mh[:]))
+		}
+		for _, om := range tx.Msgs.OutMsgs.Values() {
+			m := om.Value
+			wantMsgs[m.Hash(false)]++
+		}
+		out = append(out, sx.L(sx.BigN(new(big.Int).SetUint64(lt)), sx.Bytes(h[:]), inmsg))
+	}
+	for _, hasher := range []bool{true, false} {
+		cells, _ := buildGo(dag)
+		if bad := c16BlockAccessors(cells[root], want, wantMsgs, hasher); bad != "" {
+			return c16Fail("block-accessor:" + bad)
+		}
+	}
+	return sx.L(out...)
 }
 
 // c16.lvl (dag root kind warm): cells of non-zero level (pruned branches / Merkle
@@ -1290,6 +1581,7 @@ func c16DagBlocks(dag []Node) int {
 }
 
 type c16Real struct {
+	lt    uint64
 	kind  string // "msg" or "tx"
 	where string
 	hash  tlb.Bits256
@@ -1323,7 +1615,7 @@ func c16Collect(v reflect.Value, where string, out *[]c16Real, byHash map[string
 			if h == (tlb.Bits256{}) && x.Lt == 0 && x.AccountAddr == (tlb.Bits256{}) {
 				return // zero value of an unused sum-type alternative / pruned reference
 			}
-			r := c16Real{kind: "tx", where: where, hash: h, cell: byHash[string(h[:])]}
+			r := c16Real{kind: "tx", lt: x.Lt, where: where, hash: h, cell: byHash[string(h[:])]}
 			if r.cell == nil {
 				*missing++
 			}
@@ -1729,8 +2021,45 @@ func c16GraftInMsg(tx []Node, msg []Node) ([]Node, bool) {
 	return c16Compact(d, 0), true
 }
 
+// every block of the testdata: the accessors against the transaction cells found
+// by the independent dictionary walk; small blocks also go through the model
+func (g *c16Gen) blockAccessors(f string) {
+	data, err := os.ReadFile(f)
+	if err != nil {
+		return
+	}
+	roots, err := boc.DeserializeBoc(data)
+	if err != nil || len(roots) == 0 {
+		return
+	}
+	dag := c16SubDag(roots[0])
+	idxs := c16BlockTxCells(dag, 0)
+	name := filepath.Base(filepath.Dir(f))
+	var iv []sx.V
+	for _, i := range idxs {
+		iv = append(iv, sx.Nat(i))
+	}
+	in := sx.L(dagSx(dag), sx.Nat(0), sx.L(iv...))
+	if len(dag) <= g.c.Scale(700, 2500) {
+		out := g.c.Emit("c16.blk", in, fmt.Sprintf("blk/%s/tx%d", name, minInt(len(idxs), 9)))
+		if out.Head() == "oracle-fail" {
+			g.c.Fail("c16.blk", in, "C16/"+strings.SplitN(out.List[1].Atom, ":", 2)[0], out.List[1].Atom)
+		}
+		return
+	}
+	// too big for the Gallina SHA-256: the implementation oracles only
+	if out := safeExec("c16.blk", in); out.Head() == "oracle-fail" {
+		g.c.Fail("c16.blk", sx.Str(f), "C16/"+strings.SplitN(out.List[1].Atom, ":", 2)[0], out.List[1].Atom)
+	} else if out.K != sx.KL || len(out.List) != len(idxs) {
+		g.c.Fail("c16.blk", sx.Str(f), "C16/block-accessor", "block does not decode: "+trunc(out.String(), 60))
+	}
+}
+
 func (g *c16Gen) real(budgetMsg, budgetTx, maxMsgBlocks, maxTxBlocks, nHist int) {
 	r := g.c.R
+	for _, f := range c16BlockFiles() {
+		g.blockAccessors(f)
+	}
 	var txDags [][]Node
 	for _, f := range c16BlockFiles() {
 		found, missing, err := c16LoadBlock(f)
